@@ -191,13 +191,29 @@ class Core(Monitor):
         # fault injection between two legs: pickle round trip of a collaborator (what a dump / resume does to it)
         ctx = self.ctx
         for fault in self.faults:
-            if fault["at_step"] == ctx.step and not fault.get("done"):
+            every = fault.get("every")
+            if every:
+                # a restart storm: the fault repeats every ``every`` legs (at most 40 times)
+                due = ctx.step >= fault["at_step"] and (ctx.step - fault["at_step"]) % every == 0 \
+                    and fault.get("fired", 0) < 40 and fault.get("last") != ctx.step
+            else:
+                due = fault["at_step"] == ctx.step and not fault.get("done")
+            if due:
                 fault["done"] = True
+                fault["fired"] = fault.get("fired", 0) + 1
+                fault["last"] = ctx.step
                 handlers = list(ctx.activator.get_event_handlers())
                 if fault["kind"] == "scheduler_pickle":
                     ctx.scheduler = seams.pickle_round_trip("scheduler", handlers)
                 elif fault["kind"] == "state_handler_pickle":
                     ctx.state_handler = seams.pickle_round_trip("state_handler", handlers)
+                elif fault["kind"] == "event_handlers_pickle":
+                    from jellyfysh.activator.internal_state.cell_occupancy.cells.cells import Cells, Cell
+                    for h in seams.HUB.h_on_handlers_restoring:
+                        h(handlers)
+                    seams.restore_in_place(handlers, (Cells, Cell))
+                    for h in seams.HUB.h_on_handlers_restored:
+                        h(handlers)
                 ctx.probes["fault_" + fault["kind"]] += 1
 
     def on_push(self, scheduler, time, handler):
@@ -398,6 +414,9 @@ def run_scenario(scn, monitor_factories, package_dir, keep_log=False, crash_prop
                     raise
                 result.status = "invalid"
                 result.error = "".join(traceback.format_exception(type(exc), exc, exc.__traceback__))[-1500:]
+                # where the construction died: a property whose own code raises while building one of the generator's
+                # (well-formed) configurations reports it (props/common.py), everybody else discards the scenario
+                result.construction_crash_files = _crash_info(exc)[0]
                 return result
             ctx.mediator_built = mediator
             if before_run is not None:
